@@ -468,18 +468,30 @@ class Repository:
         hashing_settings = settings.get('hashing', {})
         hashing_settings.setdefault('name', self.DEFAULT_HASHER_NAME)
         hasher_type, hasher_args = adapters.from_config(**hashing_settings)
+        if not issubclass(hasher_type, adapters.HashAdapter):
+            raise exceptions.ReplicatError(
+                f'{hasher_type.__name__} is not a hash adapter'
+            )
         config['hashing'] = dict(hasher_args, name=hasher_type.__name__)
 
         # Deduplication params
         chunking_settings = settings.get('chunking', {})
         chunking_settings.setdefault('name', self.DEFAULT_CHUNKER_NAME)
         chunker_type, chunker_args = adapters.from_config(**chunking_settings)
+        if not issubclass(chunker_type, adapters.ChunkerAdapter):
+            raise exceptions.ReplicatError(
+                f'{chunker_type.__name__} is not a chunker adapter'
+            )
         config['chunking'] = dict(chunker_args, name=chunker_type.__name__)
 
         if (encryption_settings := settings.get('encryption', {})) is not None:
             cipher_settings = encryption_settings.get('cipher', {})
             cipher_settings.setdefault('name', self.DEFAULT_CIPHER_NAME)
             cipher_type, cipher_args = adapters.from_config(**cipher_settings)
+            if not issubclass(cipher_type, adapters.CipherAdapter):
+                raise exceptions.ReplicatError(
+                    f'{cipher_type.__name__} is not a cipher adapter'
+                )
             config['encryption'] = {
                 'cipher': dict(cipher_args, name=cipher_type.__name__)
             }
